@@ -36,7 +36,7 @@ func Mutate(t *rapid.T, seed, other []byte, maxMut int) ([]byte, []string) {
 		if len(b) == 0 {
 			b = append(b, 0)
 		}
-		kind := rapid.SampledFrom([]string{"bitflip", "bitflip", "byteset", "byteset", "size", "size", "size", "dims", "chunkdel", "chunkdup", "chunkswap", "fourcc", "truncate", "tail", "splice", "insert", "zero-run", "truncfix", "truncfix"}).Draw(t, "mutKind")
+		kind := rapid.SampledFrom([]string{"bitflip", "bitflip", "byteset", "byteset", "size", "size", "size", "dims", "chunkdel", "chunkdup", "chunkswap", "fourcc", "truncate", "tail", "splice", "insert", "zero-run", "truncfix", "truncfix", "multi-damage"}).Draw(t, "mutKind")
 		hdrs := chunkHeaders(b)
 		pickHdr := func() int {
 			if len(hdrs) == 0 {
@@ -156,6 +156,25 @@ func Mutate(t *rapid.T, seed, other []byte, maxMut int) ([]byte, []string) {
 			}
 			b = append(b[:p:p], append(ins, b[p:]...)...)
 			desc = append(desc, fmt.Sprintf("insert@%d+%d", p, k))
+		case "multi-damage":
+			// several frames of one file become undecodable at once (their container framing stays
+			// intact): the first payload bytes of each selected VP8/VP8L/ALPH chunk are overwritten
+			mask := rapid.Uint32().Draw(t, "mdMask")
+			v := rapid.SampledFrom([]byte{0xff, 0x00, 0x2e, 0x5a}).Draw(t, "mdVal")
+			k := 0
+			for _, h := range hdrs {
+				id := string(b[h : h+4])
+				if id != "VP8 " && id != "VP8L" && id != "ALPH" {
+					continue
+				}
+				if mask>>(uint(k)%32)&1 == 1 {
+					for i := h + 8; i < h+12 && i < len(b); i++ {
+						b[i] = v
+					}
+				}
+				k++
+			}
+			desc = append(desc, fmt.Sprintf("multi-damage mask=%#x of %d", mask, k))
 		case "zero-run":
 			p := rapid.IntRange(0, len(b)-1).Draw(t, "zAt")
 			k := rapid.IntRange(1, 64).Draw(t, "zN")
